@@ -27,7 +27,7 @@ ASSUMPTIONS = [
 
 ROLE = {  # which emulator accessor executes a method (documented interface -> reader object)
     'read_inline': 'iline', 'read_crossline': 'xline', 'read_zslice': 'depth_slice', 'read_subvolume': 'subvolume',
-    'get_trace': 'trace', 'get_trace_window': 'trace', 'gen_trace_header': 'header', 'gen_trace_header_all': 'header',
+    'get_trace': 'trace', 'get_trace_window': 'trace', 'gen_trace_header': 'header', 'gen_trace_header_all': 'header', 'gen_trace_header_irregular': 'header', 'get_trace_irregular': 'trace',
     'get_tracefield_values_0': 'self', 'get_tracefield_values_1': 'self', 'read_inline_number': 'iline',
     'read_crossline_number': 'xline', 'read_volume': 'self',
 }
@@ -201,6 +201,12 @@ def items_for(tier):
         for b in irr:
             for nh, dims in (((1, (3, 2, 5)),) if quick else ((1, (3, 2, 5)), (2, (3, 3, 5)), (1, (5, 3, 7)))):
                 items.append(mk_item([a, b], (4, 4, 256), 8, (2, 1, 1) if dims[0] > 4 else (1, 1, 1), tier, dict(dims=dims, holes=nh)))
+            # the emulator's seven readers share one handle AND (class-level caches) see each other's header-array state
+            items.append(mk_item([a, b], (4, 4, 256), 8, (1, 1, 1), tier, dict(dims=(3, 2, 5), holes=1, config='emu')))
+    for t3 in (['gen_trace_header_irregular', 'get_tracefield_values_0', 'gen_trace_header_irregular'],
+               ['get_tracefield_values_0', 'gen_trace_header_irregular', 'get_tracefield_values_0'],
+               ['get_trace_irregular', 'get_tracefield_values_0', 'get_trace_irregular']):
+        items.append(mk_item(t3, (4, 4, 256), 8, (1, 1, 1), tier, dict(dims=(3, 2, 5), holes=1)))
     # 2D
     for a, b in [('read_subplane', 'read_subplane'), ('get_trace_2d', 'get_trace_2d'), ('read_subplane', 'get_trace_2d'),
                  ('gen_trace_header_2d', 'get_trace_2d'), ('get_trace_2d', 'gen_trace_header_2d')]:
